@@ -170,3 +170,27 @@ def fractional_stats(draw, C, F, means, variances, n_frames=None, r=None, zero_p
     f = R @ X
     s = R @ (X * X)
     return {"t": int(T), "n": n, "sum_px": f, "sum_pxx": s}
+
+
+def gmm_training_case(draw, max_rows=None, min_rows=2):
+    """Training data from a 'true' mixture plus a different initial model near the data."""
+    C, F = dims(draw, maxC=4, maxF=3)
+    r = rng(draw)
+    scales = feature_scales(draw, F, lo=-2, hi=3)
+    offs = feature_offsets(draw, F, scales, kmax=10.0)
+    truth = gmm_params(draw, C, F, scales=scales, offs=offs)
+    n = integer(draw, max(min_rows, 1), max_rows or (60 if big() else 30))
+    X, _ = data_from(draw, truth, n, kind="bulk", r=r)
+    if boolean(draw) and n >= 4:  # duplicates
+        X[r.integers(0, n)] = X[r.integers(0, n)]
+    idx = r.integers(0, n, C)
+    means = X[idx] + scales[None, :] * r.normal(0, 0.7, (C, F))
+    variances = scales[None, :] ** 2 * np.exp(r.uniform(-1, 1.5, (C, F)))
+    fk, fv = floors(draw, C, F, scales, r)
+    variances = np.maximum(variances, fv)
+    init = {"C": C, "F": F, "weights": weights(draw, C, r), "means": means, "variances": variances,
+            "floor_kind": fk, "floors": fv if np.ndim(fv) else float(fv)}
+    upd = list(choice(draw, [(1, 1, 1), (1, 0, 0), (0, 1, 0), (0, 0, 1), (1, 1, 0), (1, 0, 1), (0, 1, 1),
+                             (0, 0, 0)]))  # means, variances, weights
+    upd = [bool(u) for u in upd]
+    return {"X": X, "init": init, "upd": upd, "scales": scales}
